@@ -8,6 +8,7 @@ package routing
 
 import (
 	"lunar/engine/config"
+	"lunar/engine/metrics"
 	"lunar/engine/streams"
 )
 
@@ -21,4 +22,16 @@ func VerifBuildHAProxyFlowsEndpointsRequest(
 		StreamsData:      StreamsData{stream: stream},
 	}
 	return rd.buildHAProxyFlowsEndpointsRequest()
+}
+
+// VerifHandlerForStream returns the REAL SPOE message handler (Handler) over a minimal data manager that
+// serves the given stream in flows mode (no telemetry set-up, no syslog dial, no HAProxy calls), so that a
+// harness can overlap whole transactions on it.
+func VerifHandlerForStream(stream *streams.Stream, metricManager *metrics.MetricManager) MessageHandler {
+	rd := &HandlingDataManager{
+		isStreamsEnabled: true,
+		StreamsData:      StreamsData{stream: stream},
+		metricManager:    metricManager,
+	}
+	return Handler(rd)
 }
